@@ -7,6 +7,7 @@ import (
 	"encoding/json"
 	"fmt"
 	"net/url"
+	"os"
 	"strings"
 
 	"github.com/oauth2-proxy/oauth2-proxy/v7/pkg/apis/options"
@@ -139,7 +140,7 @@ func setHeader(name, val string) func(r *world.Req) {
 	return func(r *world.Req) { r.Headers = append(r.Headers, [2]string{name, val}) }
 }
 
-func c19Fields(px *Proxy, idp *world.IdP, validCookie string, csrfCookie, goodState string) []c19Field {
+func c19Fields(px *Proxy, idp *world.IdP, validCookie string, csrfCookie, goodState string, carried [][2]string) []c19Field {
 	name := px.Opts.Cookie.Name
 	prefix := px.Opts.ProxyPrefix
 	tgt := func(t string) c19Alt {
@@ -175,6 +176,15 @@ func c19Fields(px *Proxy, idp *world.IdP, validCookie string, csrfCookie, goodSt
 		}
 	}
 	targets = append(targets, c19Alt{Name: "target=*", Apply: func(r *world.Req) { r.Target = "*"; r.Method = "OPTIONS" }})
+	// whole requests that create a session by themselves (the sign-in form posted with good / bad
+	// credentials): one choice, so that every pair with a Cookie / Authorization / header choice is enumerated
+	for _, f := range [][2]string{{"form-login(good)", "username=hugo&password=pw1&rd=%2Fapp"}, {"form-login(bad)", "username=hugo&password=nope"}} {
+		f := f
+		targets = append(targets, c19Alt{Name: "target=" + f[0], Apply: func(r *world.Req) {
+			r.Target, r.Method, r.Body = prefix+"/sign_in", "POST", f[1]
+			r.Headers = append(r.Headers, [2]string{"Content-Type", "application/x-www-form-urlencoded"})
+		}})
+	}
 
 	var methods []c19Alt
 	for _, m := range []string{"GET", "POST", "OPTIONS", "HEAD", "PUT", "get", "PROPFIND", "CONNECT"} {
@@ -226,6 +236,10 @@ func c19Fields(px *Proxy, idp *world.IdP, validCookie string, csrfCookie, goodSt
 		ck("csrf-garbage", name+"_csrf=zzz|1|zzz"), ck("csrf-valid", csrfCookie), ck("csrf-empty", name+"_csrf="),
 		ck("ticket-v2-garbage", name+"=djIuWC5Z|1|x"),
 	)
+	// cookies an earlier response of ANOTHER session source (or another user's login) left in the browser
+	for _, cv := range carried {
+		cookies = append(cookies, ck(cv[0], cv[1]))
+	}
 	{
 		var b []string
 		for i := 0; i < 50; i++ {
@@ -347,6 +361,13 @@ func c19Fields(px *Proxy, idp *world.IdP, validCookie string, csrfCookie, goodSt
 	return []c19Field{{"target", targets}, {"method", methods}, {"cookie", cookies}, {"authz", authz}, {"fwd", fw}, {"host", hosts}, {"body", bodies}, {"accept", accept}}
 }
 
+// c19PartOn: VERIF_C19_PART=peer|carry|grammar restricts a run to one part (development aid; the
+// check runs all of them).
+func c19PartOn(name string) bool {
+	p := os.Getenv("VERIF_C19_PART")
+	return p == "" || p == name
+}
+
 func clip(s string) string {
 	if len(s) > 48 {
 		return s[:45] + "..."
@@ -385,6 +406,12 @@ func c19Run(c *Ctx, cfg c19Config, px *Proxy, fields []c19Field, choice []int, u
 	cs := c19Case{Config: cfg.Name, Alts: names, Status: resp.Status}
 	c.Distinct("distinct_nontrivial", fmt.Sprintf("%s|%d|%v", cfg.Name, resp.Status, names))
 	c.Distinct("distinct_outcomes", fmt.Sprintf("%s|%d|%v", cfg.Name, resp.Status, resp.Panic != nil))
+	if choice[0] > 0 && fields[0].Alts[choice[0]].Name == "target=form-login(good)" && resp.Status == 302 {
+		c.Inc("grammar_form_logins_accepted")
+		if choice[2] > 0 && strings.HasPrefix(fields[2].Alts[choice[2]].Name, "cookie=carried:") {
+			c.Inc("grammar_form_logins_accepted_while_carrying_another_session")
+		}
+	}
 	if resp.Panic != nil {
 		site := resp.PanicSite()
 		cs.Panic = fmt.Sprint(resp.Panic)
@@ -400,15 +427,32 @@ func c19Run(c *Ctx, cfg c19Config, px *Proxy, fields []c19Field, choice []int, u
 
 func init() {
 	register(&checkDef{
-		id:          "C19",
-		level:       "exploration",
-		rule:        "grammar-enumerated requests: 8 fields (target incl. callback state/code/error shapes, method, Cookie incl. every mutation class at 16 positions, Authorization incl. every separator split of a valid bearer, forwarding headers, Host, body, Accept); every single choice and every pair of choices (thorough: also triples on the cookie/authz/target fields) per configuration; recover() directly around ServeHTTP; distinct_nontrivial = distinct (config, status, choice-set) that reached the handler",
-		assumptions: []string{"requests the net/http parser rejects never reach request handling and are counted separately", "coverage-guided mutation named in the quantifier is a different technique family and is not used"},
-		shards:      func(tier string) int { return 16 },
+		id:    "C19",
+		level: "exploration",
+		rule: "three parts. (1) grammar: 8 fields (target incl. callback state/code/error shapes and whole sign-in-form posts, method, Cookie incl. every mutation class at 16 positions and the cookies another session source / another user's login left behind, Authorization incl. every separator split of a valid bearer, forwarding headers, Host, body, Accept); every single choice and every pair of choices (thorough: also triples on the cookie/authz/target fields) per configuration. " +
+			"(2) peer: configuration (every option that makes request handling call out: backend logout with/without {id_token}, refresh, profile/validate URLs, extra issuers; every provider implementation pointed at the world) x scenario (session source x endpoint, fresh/stale session) x call position inside the request x answer kind (transport failures, error statuses, 200 body shapes, every place of the well-formed JSON answer x every other JSON type, every ID-/access-token claim x every other JSON type, malformed tokens; store: error before/after, missing, corrupted value): single deviations, the same deviation for every later call, thorough: pairs. " +
+			"(3) carry: one browser's request histories up to depth 3 (quick: middle operation from the modifiers; thorough: all, and depth 4) over 17 operations (OAuth login of two users, form login of two users / bad password, page, bearer, basic, auth, userinfo, sign-out, sign-in page, start only, callback again, clock past refresh period / cookie lifetime, store loses everything) x 2 client cookie policies (RFC 6265 jar, never forgets) x 9 configurations (both stores). " +
+			"recover() directly around ServeHTTP in all parts; distinct_nontrivial = distinct (config, status, choice-set) that reached the handler + peer cases whose deviation was delivered + histories that created or carried a session",
+		assumptions: []string{"requests the net/http parser rejects never reach request handling and are counted separately",
+			"peer part: a request that is still calling after 24 calls finds the peer gone (paginated listings whose every page is non-empty); hanging peers are not part of the alphabet (no wall-clock oracle)", "coverage-guided mutation named in the quantifier is a different technique family and is not used"},
+		shards: func(tier string) int { return 16 },
 		run: func(c *Ctx) {
-			idp := world.NewIdP()
 			up := world.NewUpstream("u")
 			defer up.Close()
+			// the parts with a failing peer and with cookies carried from one session source to the
+			// next build their own worlds; the grammar product below starts from a fresh provider
+			if c19PartOn("peer") {
+				c19PeerPart(c, up)
+			}
+			if c19PartOn("carry") {
+				c19CarryPart(c, up)
+			}
+			if !c19PartOn("grammar") {
+				return
+			}
+			world.ResetClock()
+			world.SeedRandom(c.Seed, 0)
+			idp := world.NewIdP()
 			cfgs := c19Configs()
 			c.Info["configurations"] = len(cfgs)
 			for ci, cfg := range cfgs {
@@ -434,7 +478,22 @@ func init() {
 				lu, _ := url.Parse(loginURL)
 				goodState := lu.Query().Get("state")
 				csrf := b2.Jar.Header("http", "app.example.com", "/")
-				fields := c19Fields(px, idp, valid, csrf, goodState)
+				var carried [][2]string
+				if cfg.Htpw {
+					b3 := newBrowser(px, "http", "app.example.com")
+					if r := b3.PostForm(px.Opts.ProxyPrefix+"/sign_in", url.Values{"username": {"hugo"}, "password": {"pw1"}}); r.Status == 302 {
+						carried = append(carried, [2]string{"carried:form-login-session", b3.Jar.Header("http", "app.example.com", "/")})
+					} else if c.Mine(ci) {
+						// (a configuration whose group restriction keeps htpasswd users out)
+						c.Inc("grammar_configurations_refusing_the_form_login")
+					}
+				}
+				b4 := newBrowser(px, "http", "app.example.com")
+				if r, _, err := b4.Login(idp, "bob", "/app"); err == nil && r.Status == 302 {
+					carried = append(carried, [2]string{"carried:other-user-session", b4.Jar.Header("http", "app.example.com", "/")})
+				}
+				carried = append(carried, [2]string{"carried:session+outstanding-login", valid + "; " + csrf})
+				fields := c19Fields(px, idp, valid, csrf, goodState, carried)
 				if ci == 0 {
 					sizes := map[string]int{}
 					for _, f := range fields {
@@ -511,6 +570,21 @@ func init() {
 					px.Redis.Close()
 				}
 				up.Take()
+			}
+		},
+		post: func(c *Ctx) {
+			if c19PartOn("peer") {
+				c19PeerPost(c)
+			}
+			if c19PartOn("carry") {
+				c19CarryPost(c)
+			}
+			if c19PartOn("grammar") {
+				for _, k := range []string{"grammar_form_logins_accepted", "grammar_form_logins_accepted_while_carrying_another_session"} {
+					if c.Counters[k] == 0 {
+						c.Error("C19 grammar part: counter %s is 0 (the sign-in form was never posted successfully / never with a carried cookie)", k)
+					}
+				}
 			}
 		},
 		replay: func(c *Ctx, raw json.RawMessage) string {
